@@ -317,7 +317,14 @@ class Shard(ShardCMC):
                 del minishard.databytearray
 
             sh_size = 0
-            for minishard in sorted_mini_dict:
+            for rank, (key, minishard) in enumerate(
+                    zip(sorted(self.minishard_dict.keys()), sorted_mini_dict)):
+                # The shard index entry of minishard number m must be located
+                # at slot m: leave empty entries for the unused minishards.
+                slot = int(key) if isinstance(key, (int, np.integer)) else rank
+                while len(sh_idx_buf) < slot * 16:
+                    sh_idx_buf += struct.pack("<QQ", data_size + sh_size,
+                                              data_size + sh_size)
                 # turning [0, 1, 2, 3, 4, 5] into [0, 3, 1, 4, 2, 5]
                 num_cols = int(len(minishard.header) / 3)
                 hdr_buf = np.reshape(minishard.header, (3, num_cols),
